@@ -139,7 +139,8 @@ Proof.
       destruct (links_eq_find h h' x cx L H3) as [cx' [H3' [Hp' _]]].
       exists x, p, cx'. repeat split; auto; try congruence. eapply links_eq_anc; eauto.
   - intros q cq Hfq. rewrite (le_reqs h h' L) in Hfq. eauto.
-  - rewrite (le_drag h h' L). exact Dg.
+  - rewrite (le_drag h h' L). destruct Dg as [od [E Hd]]. exists od. split; [exact E|]. intros d Ed Hn Hl.
+    eapply links_eq_anc; eauto. apply Hd; auto. intro Hnone. apply Hl. apply (links_eq_none h h' root L). exact Hnone.
   - intros a Ha. rewrite (le_nextw h h' L). apply NW. intro Hn. apply Ha. apply (links_eq_none h h' a L). exact Hn.
   - rewrite (le_nextw h h' L). exact NWR.
   - intros q Hq'. rewrite (le_nextq h h' L). apply NQ. rewrite <- (le_reqs h h' L). exact Hq'.
